@@ -35,6 +35,12 @@ def queries(tier):
                 qs.append(Query(f"serialize_{cname}_count{cnt}_e{e}_b{b}_s{st}", "C30/serialize.cpp", "harness_serialize",
                                 dict(P_CTOR=c, P_COUNT=cnt, P_E=e, P_B=b, P_STRIDE=st), SRC, unwind=8, cap_s=600, mem_gb=12,
                                 prelude=["rbtree", "nostring"], no_pointer_overflow=True, ll2c_cap=8, memcap=8))
+    # several consecutive elements (count 2) of vector / hvector / indexed types, the indexed one with a first displacement of 0 or 1
+    for c, cname, first in ((1, "vector", 0), (2, "hvector", 0), (3, "indexed", 0), (3, "indexed", 1), (4, "struct", 0), (4, "struct", 1)):
+        for e, b, st in ([(2, 1, 2)] if tier == "quick" else [(1, 1, 2), (2, 1, 2), (2, 1, 3)]):
+            qs.append(Query(f"serialize2_{cname}_first{first}_e{e}_b{b}_s{st}", "C30/serialize.cpp", "harness_serialize",
+                            dict(P_CTOR=c, P_COUNT=2, P_E=e, P_B=b, P_STRIDE=st, P_CNT=2, P_FIRST=first), SRC, unwind=8, cap_s=600, mem_gb=12,
+                            prelude=["rbtree", "nostring"], no_pointer_overflow=True, ll2c_cap=8, memcap=8))
     # receiving side: unserialize with MPI_REPLACE over an old type that is itself derived and has holes (vector of 2 single bytes, stride vs)
     ushapes = [(2, 1, 3), (2, 2, 2)] if tier == "quick" else [(vs, b, st) for vs in (1, 2, 3) for b in (1, 2) for st in (2, 3)]
     for c, cname in ((1, "vector"), (2, "hvector"), (3, "indexed")):
@@ -45,6 +51,10 @@ def queries(tier):
                 qs.append(Query(f"unserialize_{cname}_count{cnt}_vs{vs}_b{b}_s{st}", "C30/unserialize.cpp", "harness_unserialize",
                                 dict(P_CTOR=c, P_COUNT=cnt, P_VS=vs, P_B=b, P_STRIDE=st), SRC, unwind=66, cap_s=600, mem_gb=12,
                                 prelude=["rbtree", "nostring"], no_pointer_overflow=True, ll2c_cap=8, memcap=8))
+    for c, cname, first in ((1, "vector", 0), (2, "hvector", 0), (3, "indexed", 0), (3, "indexed", 1), (4, "struct", 0), (4, "struct", 1)):
+        qs.append(Query(f"unserialize2_{cname}_first{first}_vs2_b1_s2", "C30/unserialize.cpp", "harness_unserialize",
+                        dict(P_CTOR=c, P_COUNT=2, P_VS=2, P_B=1, P_STRIDE=2, P_CNT=2, P_FIRST=first), SRC, unwind=66, cap_s=600, mem_gb=12,
+                        prelude=["rbtree", "nostring"], no_pointer_overflow=True, ll2c_cap=8, memcap=8))
     for q_ in qs:
         if q_.name in ("indexed_n2_derived_lbpos", "indexed_n3_derived_lbpos"):
             q_.tiers = ("thorough",)  # symbolic products of three factors: no verdict in 200 s with the SAT back end
